@@ -170,7 +170,16 @@ def gen_server(rng, stats, nops):
                 victim, nextc = nextc, nextc + 1
                 lines += ["connect c%d 10.0.0.1:%d" % (victim, 1000 + victim), "tick", "rx c%d %s" % (victim, apci.STARTDT_ACT.hex()), "tick"]
             stats["abrupt-close"] = stats.get("abrupt-close", 0) + 1
-        elif r < 92:
+        elif r < 90:   # the victim sends the start of an APDU and goes mute; the SERVER ends the connection; the slot is reused
+            lines.append("rx %s %s" % (v, hx(rng.choice([b"\x68", b"\x68\x04", b"\x68\x0e\x00\x00", bytes([0x68, 200]) + rng.bytes(rng.below(60))]))))
+            lines.append("tick")
+            lines += ["appclose " + v, "tick 2"] if rng.chance(1, 2) else ["wmode %s 1" % v, "rx c1 " + apci.TESTFR_CON.hex(), "tick"] + ["enq " + c03.ev_asdu(evid).hex(), "tick 2", "appclose " + v, "tick 2"]
+            evid += 1
+            if nextc < 12:
+                victim, nextc = nextc, nextc + 1
+                lines += ["connect c%d 10.0.0.1:%d" % (victim, 1000 + victim), "tick", "rx c%d %s" % (victim, apci.STARTDT_ACT.hex()), "tick"]
+            stats["mute-then-server-close"] = stats.get("mute-then-server-close", 0) + 1
+        elif r < 93:
             lines.append("rxs %s %d" % (v, rng.choice([0, 0, -1, 1, 5, -30000])))
             lines.append("tick")
         else:
@@ -199,6 +208,14 @@ def check_server(ck, sid, lines, out, mode):
             bad.append(("no-new-connection", "a new connection %s was not accepted after the fuzzed traffic" % c))
         elif apci.STARTDT_CON.hex() not in "".join(l.split()[2] for l in out if l.startswith("tx %s " % c)):
             bad.append(("new-connection-unserved", "STARTDT act on the new connection %s was not confirmed" % c))
+    # every later connection starts with a valid STARTDT act: it must be confirmed, whatever happened on the slot before
+    for i, l in enumerate(lines):
+        w = l.split()
+        if w[0] == "connect" and w[1] not in ("c0", "c1") and i + 2 < len(lines) and lines[i + 2] == "rx %s %s" % (w[1], apci.STARTDT_ACT.hex()):
+            c = w[1]
+            if any(x.split()[:3] == ["ev", c, "OPENED"] for x in out) and apci.STARTDT_CON.hex() not in "".join(x.split()[2] for x in out if x.startswith("tx %s " % c)):
+                bad.append(("new-connection-unserved", "connection %s was accepted but its STARTDT act (its first octets) was not confirmed: state left behind by the previous connection on the slot?" % c))
+                break
     for l in out:
         if l.startswith("cb ") and "asdu=" in l:
             a = l.split("asdu=")[1].split()[0]
@@ -420,11 +437,43 @@ def gen_file(rng, stats, nops):
                 a[rng.below(len(a))] ^= 1 << rng.below(8)
             lines.append("%s %s" % (rng.choice(["rx", "rx", "rx2"]), hx(a)))
             stats["file:fuzzed-asdu"] = stats.get("file:fuzzed-asdu", 0) + 1
+        elif r < 86:   # near-valid segment: the announced length and the octets present disagree
+            data = rng.bytes(rng.choice([0, 1, 4, 30]))
+            los = rng.choice([len(data), len(data) + 1, 200, 255, 0, max(0, len(data) - 1)])
+            a = c.asdu(125, 13, f.ca, f.ioa, bytes([f.nof & 255, f.nof >> 8, rng.choice([1, 1, 2, 0, 255]), los]) + data)
+            lines.append("rx " + hx(a))
+            stats["file:segment-length-mismatch"] = stats.get("file:segment-length-mismatch", 0) + 1
         elif r < 92:
             lines.append("%s %d" % (rng.choice(["run", "run", "run2"]), rng.range(1, 5)))
         else:
             lines.append("adv %d" % rng.choice([1, 1000, 3001]))
-    return lines
+    return lines, c
+
+
+def check_file(ck, sid, lines, out, c):
+    """an object handed to the receiver must consist of octets of the ASDU that was received"""
+    bad = []
+    pairs, _ = c20.split_trace(lines, out)
+    for prod, grp in pairs:
+        w = prod.split()
+        if w[0] not in ("rx", "rx2") or w[1] == "-":
+            continue
+        b = bytes.fromhex(w[1])
+        if not b or b[0] != 125:
+            continue
+        avail = len(b) - c.hdr - c.ioa - 4
+        for g in grp:
+            if g.startswith("cb segment"):
+                kv = dict(x.split("=") for x in g.split()[2:] if "=" in x)
+                size = int(kv["size"])
+                data = kv.get("data", "-")
+                if size > max(avail, 0):
+                    bad.append(("invalid-object", "file receiver was handed a segment of %d octets, the F_SG_NA_1 ASDU %s carries only %d" % (size, w[1][:60], max(avail, 0))))
+                elif size and bytes.fromhex(data) != b[c.hdr + c.ioa + 4:c.hdr + c.ioa + 4 + size]:
+                    bad.append(("invalid-object", "segment data handed to the receiver differs from the octets of the ASDU " + w[1][:60]))
+                else:
+                    ck.nontriv(("file-seg", size))
+    return bad
 
 
 # ------------------------------------------------------------------ run
@@ -470,7 +519,10 @@ def run(ck):
         lines, mode, al, ns = gen_cs101(rng, stats, rng.range(20, 80))
         dscripts.append(("cs101_%d" % i, lines)); dmeta["cs101_%d" % i] = (mode, al, ns)
     # E
-    fscripts = [("file%d" % i, gen_file(rng, stats, rng.range(10, 80))) for i in range(nscr)]
+    fscripts, fmeta = [], {}
+    for i in range(nscr):
+        lines, c = gen_file(rng, stats, rng.range(10, 80))
+        fscripts.append(("file%d" % i, lines)); fmeta["file%d" % i] = c
 
     def go(stack, exe, scripts, checker):
         res = runner.run_batch(exe, scripts, timeout=3600 if not quick else 600)
@@ -491,7 +543,7 @@ def run(ck):
     go("cs104-client", hcli, cscripts, lambda sid, lines, out: check_client(ck, sid, lines, out))
     go("cs101-link", L.h_ll(), lscripts, lambda sid, lines, out: check_link(ck, sid, lines, out, *lmeta[sid]))
     go("cs101-stack", L.h_cs101(), dscripts, lambda sid, lines, out: check_cs101(ck, sid, lines, out))
-    go("file-service", c20.harness(), fscripts, None)
+    go("file-service", c20.harness(), fscripts, lambda sid, lines, out: check_file(ck, sid, lines, out, fmeta[sid]))
     for k_, v in sorted(stats.items()):
         ck.count(k_, v)
     ck.extra["exhaustive"] = False
